@@ -64,6 +64,12 @@ SPEC = {
         {'kl': 'LIC', 'name': 'License',
          'attrs': [['Nr', 'integer'], ['Fee', 'real'], ['Valid', 'boolean'], ['Name', 'integer']],
          'refs': [], 'derived': [], 'ops': []},
+        # a class that shares its key letters with the external entity TIM (Time): NS::f(...) with these key letters
+        # is a bridge invocation (external entities are looked up first); the class has no operations, so no
+        # invocation is ambiguous
+        {'kl': 'TIM', 'name': 'Timer',
+         'attrs': [['Id', 'integer'], ['Due', 'integer'], ['Armed', 'boolean'], ['Note', 'string']],
+         'refs': [], 'derived': [], 'ops': []},
     ],
     # number, one side, other side, phrases (one side -> other, other -> one), link class or None
     'rels': [[1, 'DOG', 'PER', "'is owned by'", "'owns'", None],
@@ -428,7 +434,10 @@ class ProgramGen(object):
         if ty == 'integer':
             return str(r.choice([0, 1, 2, 3, 7, 10, 42, 100, 65535]))
         if ty == 'real':
-            return r.choice(['0.5', '1.0', '3.14', '10.25', '2.', '.75'])
+            # every shape of the lexer's FRACTION rule: with / without point, exponent without a point (upper / lower E,
+            # signed), exponent after `digits.`, float / long suffixes
+            return r.choice(['0.5', '1.0', '3.14', '10.25', '2.', '.75', '1e5', '25E-1', '3e+2', '7E0', '2.e3', '4.E-2',
+                             '1e5F', '.5f', '2.L', '6e1l'])
         if ty == 'string':
             # OAL strings have no escape sequences: a backslash, a percent sign, a tick, a tab are ordinary characters
             return '"%s"' % r.choice(['', 'a', 'hello', 'x y', 'Dog #1', "it's", 'end if', 'a;b', 'C:\\temp\\log.txt',
@@ -1038,9 +1047,12 @@ def render(prog, style_rng, vary=True, indent=0):
             then = (' ' + _kw(r, 'then', vary)) if r.random() < 0.4 else ''
             lines.append(pad + '%s %s%s' % (_kw(r, 'if', vary), _cond(r, st[1], then), then))
             lines.append(render(st[2], r, vary, indent + 1))
-            for c, b in st[3]:
+            # ragged layout: successive elif clauses may start further LEFT than the ones before them
+            ragged = vary and len(st[3]) >= 2 and r.random() < 0.4
+            extra = sorted((r.choice([0, 1, 3, 6, 9]) for _ in st[3]), reverse=True) if ragged else [0] * len(st[3])
+            for (c, b), ex in zip(st[3], extra):
                 then = (' ' + _kw(r, 'then', vary)) if r.random() < 0.4 else ''
-                lines.append(pad + '%s %s%s' % (_kw(r, 'elif', vary), _cond(r, c, then), then))
+                lines.append(pad + ' ' * ex + '%s %s%s' % (_kw(r, 'elif', vary), _cond(r, c, then), then))
                 lines.append(render(b, r, vary, indent + 1))
             if st[4] is not None:
                 lines.append(pad + _kw(r, 'else', vary))
